@@ -116,7 +116,13 @@ def audits(ctx, prog, only=None):
                 if 'BaseDIDUrl' in nm:
                     return t == ('leaf', 'base_did_url')
                 ps = apps(t, r'did_url_parser::DID::parse$')
-                return bool(ps) and t[0] == 'field' and t[3] == 'Ok' and t[1] == ps[0]
+                if not (bool(ps) and t[0] == 'field' and t[3] == 'Ok' and t[1] == ps[0]):
+                    return False
+                # the text handed to the parser is the caller's text as given (no trimming, case folding, re-formatting)
+                a = strip(ps[0][2][0])
+                while isinstance(a, tuple) and a and a[0] == 'app' and re.search(r'AsRef<str>>::as_ref$|::as_str$|Deref>::deref$|Borrow<str>>::borrow$', a[1]):
+                    a = strip(a[2][0])
+                return a == ('leaf', leaf)
             return validated(p, base_ok)
         A.require('%s/validated-before-construction' % nm, okp, pred, replay=R('[stray]'))
         A.no_panic('%s/no-panic' % nm, paths, replay=R('[panic]'))
